@@ -512,7 +512,10 @@ def oracle_lock(case):
                 rr, rw = os.pipe()
                 a = holder(cache, "A", log, 0, start_pipe=sw, release_pipe=rr)
                 os.read(sr, 1)                   # A is inside and stays there
-                b = holder(cache, "B", log, 0.1)
+                # B names the same directory in another way (trailing separator, doubled separator, '.' segment)
+                spelled = [cache, cache + os.sep, cache + os.sep + ".", os.path.dirname(cache) + os.sep + os.sep +
+                           os.path.basename(cache)][case.get("age", 0) % 4]
+                b = holder(spelled, "B", log, 0.1)
                 wait(b)                          # B must have given up (its timeout is 1 s) while A still holds
                 os.write(rw, b"r")
                 wait(a)
